@@ -43,6 +43,9 @@ fn build_config(n: &BuildNode, root: usize) -> BuildConfig {
         refs.insert(at.min(refs.len()), own);
     }
     cfg.buildpacks(refs);
+    if c.target_aarch64 && c.own_buildpack.is_none() {
+        cfg.target_triple("aarch64-unknown-linux-musl");
+    }
     let half = c.env.len() / 2;
     match c.env_style {
         1 => {
